@@ -34,7 +34,7 @@ def gates(c, tier):
     for lf in LENFORMS[1:]:
         if c.get("freedom:" + lf, 0) == 0:
             out.append(f"length form {lf} never applied")
-    for k in ("freedom:TRUE!=ff", "freedom:explicit-default:criticality", "freedom:explicit-default:dnAttributes", "freedom:trailing",
+    for k in ("freedom:TRUE!=ff", "freedom:explicit-default:criticality", "freedom:explicit-default:dnAttributes", "freedom:trailing", "freedom:trailing-after-all-components",
               "ad-style-all-84", "via:unpack", "via:receive", "systematic"):
         if c.get(k, 0) == 0:
             out.append(f"never applied: {k}")
@@ -78,7 +78,17 @@ def _ser(node) -> bytes:
     return ber.ident_octets(node.cls, node.pc, node.num) + lo + body
 
 
-def g_trailing(r):
+def g_trailing(r, all_present=False):
+    if all_present and r.random() < 0.5:
+        # all defined components are present, so even an element with a universal tag is a trailing one
+        kind = r.choice(["oct", "bool", "int", "seq"])
+        if kind == "oct":
+            return ber.Node(ber.UNIV, False, 4, content=r.randbytes(r.choice([0, 3])), kind="TRAIL")
+        if kind == "bool":
+            return ber.Node(ber.UNIV, False, 1, content=bytes([r.choice([0, 255])]), kind="TRAIL")
+        if kind == "int":
+            return ber.Node(ber.UNIV, False, 2, content=bytes([r.randrange(0, 128)]), kind="TRAIL")
+        return ber.Node(ber.UNIV, True, 16, children=[], kind="TRAIL")
     cls, num = r.choice([(ber.CTX, r.randrange(20, 31)), (ber.CTX, r.choice([31, 127, 128, 16384, 2**21])), (ber.PRIV, r.randrange(0, 40)),
                          (ber.CTX, 99), (ber.PRIV, 2**14)])
     if r.random() < 0.5:
@@ -158,7 +168,9 @@ def apply_random(root, r, acc_count, p_len=0.35, p_trail=0.25):
                 nfree += 1
         if n.kind == "SEQ" and n.children is not None and r.random() < p_trail:
             for _ in range(r.choice([1, 1, 2])):
-                n.children.append(g_trailing(r))
+                n.children.append(g_trailing(r, n.meta == "all-present"))
+            if n.meta == "all-present":
+                acc_count("freedom:trailing-after-all-components")
             acc_count("freedom:trailing")
             acc_count("trailing-in:" + ("envelope" if d == 0 else f"{'APPL' if n.cls == 1 else ('CTX' if n.cls == 2 else 'UNIV')}{n.num}"))
             depths.add(d)
@@ -211,7 +223,7 @@ def run_case(a, mode, rseed):
             elif fr == "trail1" or fr == "trail2":
                 if n.kind == "SEQ" and n.children is not None:
                     for _ in range(int(fr[-1])):
-                        n.children.append(g_trailing(r))
+                        n.children.append(g_trailing(r, n.meta == "all-present"))
                     cnt("freedom:trailing")
                     cnt("trailing-in:" + ("envelope" if d == 0 else f"{'APPL' if n.cls == 1 else ('CTX' if n.cls == 2 else 'UNIV')}{n.num}"))
         cnt("systematic")
